@@ -776,6 +776,9 @@ func applyInner(o, d *Obj, c Call) (ret []string) {
 		for _, v := range c.Strs("xs") {
 			in = append(in, Conc(v))
 		}
+		if c.Str("kind") == "CONDITION" { // the row that decodes into Conc("C")
+			in = []any{"CONDITION", "k", stackage.Eq, "v"}
+		}
 		// alternate between the two documented call forms
 		var err error
 		if len(in)%2 == 0 {
